@@ -26,6 +26,7 @@ CHECKS.update({
  'C10': M('3 C10', 'ortho maps the 8 box corners to the cube corners; frustum maps near and similar far rectangle corners to the z = -1/+1 faces after the divide by w = -z; perspective equals frustum(to_perspective()) and its entries on the whole valid domain; planar maps the z = 0 window to [-1,1]^2, z=-n to -1, z=-f to +1, focal point at (h/2)cot(fovy/2); and for each documented precondition of perspective/frustum/planar, with that precondition violated NO path returns (all end in the panic), while valid parameters have no feasible panic path. tan is opaque with 0<t<pi/2 => tan t > 0, pi symbolic.'),
  'C09': M('3 C09', 'every 3-D look_to/look_at entry point (Matrix4 rh/lh, deprecated aliases, Matrix3, Transform impls, Basis3, Quaternion, Decomposed with Basis3 and Quaternion) for symbolic eye, direction and up in general position (d != 0, d x up != 0): rotation block orthonormal with det +1, eye to origin, d to -z (rh) / +z (lh), up into x = 0, y >= 0, look_at = look_to of center - eye, and agreement between representations; the doubly normalised up row is handled by solver-checked lemmas on the code\'s own terms; 2-D Matrix2/Basis2::look_at both flip branches.'),
  'C13': M('3 C13', 'four interpretations of the real code of Rad/Deg. REAL with pi symbolic: unit conversions are mutually inverse, full turns correspond, turn_div_k()*k = full_turn(), trig of an angle is the function of its radian measure, csc/sec/cot reciprocals, inverse functions return the principal value in the caller\'s unit with the documented ranges, operators and Sum act on the underlying number. REAL with the fmod contract (integer turn count): normalize in [0,T), normalize_signed in (-T/2,T/2], each a whole number of turns from the argument, opposite = normalize(a + T/2), bisect midway (equal and opposite signed distance, at most a quarter turn) -- BOUND: angles within 64 turns (8 for bisect) of zero. FP (bit-precise IEEE, z3/cvc5 QF_FP): normalize in [0,T] and normalize_signed in [-T/2,T/2] for EVERY finite f32 and f64 in both units. ERR (rounding-error model, each operation (1+delta), |delta| <= unit roundoff): unit round trips within 4 machine epsilons for f32 and f64 in the normal range 2^-100..2^100 / 2^-900..2^900. One defect (bisect) was repaired by a fix: commit.', 'angle magnitude for the modular clauses (64 turns; 8 for bisect); normal floating-point range for the 4-epsilon clause; executor fuel/forks'),
+ 'C17': M('3 C17', 'for every operator on Vector1-4, Point1-3, Matrix2-4, Quaternion, Rad, Deg, Basis2/3 the by-value, &a op b, a op &b, &a op &b and compound-assignment forms produce leaf-wise identical terms (a missing form is a compile error); for each of the twelve primitive scalar types, scalar*value, scalar/value, scalar%value on Vector1-4 and Point1-3 (and Matrix2-4, Quaternion at f32/f64), by value and by reference, equal the primitive operation applied to each component with the scalar on the left, monomorphised at the real primitive type (integer division and remainder as uninterpreted operations: equal terms mean the same operation on the same operands in the same order); Sum/Product over arrays of length 0-4 of values and of references equal the left fold from zero()/one(); and VERIF_SEED-seeded random straight-line programs (20 quick / 200 thorough, 6-12 operations) written twice with independently chosen spellings agree. Sampling over programs, exhaustive over values.', 'iterator folds over 0-4 elements; programs of 6-12 operations, 20 (quick) / 200 (thorough) per seed'),
  'C18': M('3 C18', 'for every compound type (Vector1-4, Point1-3, Matrix2-4, Quaternion, Rad, Deg, Euler, Basis2/3, Decomposed x 3 rotation types) and symbolic tolerances, abs_diff_eq / relative_eq / ulps_eq equal the conjunction of the scalar relation over all corresponding components: the scalar relations are opaque Boolean atoms, so the && chains are explored path by path (one path per prefix) and a dropped, repeated or misdirected clause changes some path\'s verdict; reflexivity and symmetry under the scalar contract; is_finite, is_zero (exact for vectors, ulps for matrices with the matrix types\' own default epsilon 1e-6, quaternions, angles), is_identity, is_diagonal, is_symmetric, is_invertible, is_perpendicular equal the stated component-wise ulps comparisons.'),
  'C14': M('3 C14', 'lerp = a + (b-a)t with exact endpoints for Vector1-4, Quaternion, Matrix2-4; nlerp for unit a, b and 0<=t<=1 on both sign paths: unit result, a non-negative combination of a and +-b (in their plane, on the shorter arc), no further from either end than the ends are from each other, exact endpoints; slerp: sign flip, hand-over to nlerp above 0.9995, unit result, exact endpoints, and constant angular speed r.a = cos(t*theta) on the acos path, closed by a solver-checked proof script (bilinearity lemmas on the code\'s own terms + scalar lemma functions proved for all reals + the angle-subtraction axiom instance). The 1e-5 rad clause on the nlerp hand-over path is outside the claim.'),
  'C15': M('3 C15', 'Quaternion::between_vectors for unit a, b on its three paths (general: q*a = b, unit, 2 q.s^2 - 1 = a.b, axis parallel to and along a x b; same: identity and only within 1e-7 rad; opposite: half turn about a unit axis perpendicular to a, both axis sub-paths, only within 1e-7 rad of antiparallel), Basis3 = matrix of that quaternion, Basis2::between_vectors (cos = a.b, sin = perp_dot, r(a) = b), and Quaternion::from_arc for non-zero src, dst of any length (general path unit, image parallel to dst with (q*src).dst = |src||dst| > 0, q.s >= 0; parallel path identity; antiparallel path with and without fallback axis; 1e-4 rad tolerance for lengths in [1e-3, 1e3]) under the ulps_eq contract. One known finding (tiny src, no fallback: NaN) is listed in known-findings.txt; one defect (Basis2 sign) was repaired by a fix: commit.'),
